@@ -101,6 +101,52 @@ func logReplica(lg *sim.Log, root int, name string, recs []BlockRec) {
 	}
 }
 
+// runReruns replays the workload once more and, before every block that carries steps or follows a long gap,
+// executes that block R times on forks of the SAME committed state (BeginBlocker / messages / EndBlocker on cache
+// branches). Each execution is logged as a Rerun node (store digests, tx results, events); the first execution
+// of a block is the reference for the others. This multiplies the number of executions of exactly the code that
+// map-order or clock dependence would make vary, independently of how many whole-workload replicas are run.
+func runReruns(w Workload, lg *sim.Log, root int, R int) (blocks, execs int) {
+	c := NewFresh(Funds())
+	for idx, blk := range w.Blocks {
+		if idx > 0 && (len(blk.Steps) > 0 || blk.Dt >= 3000) && R > 0 {
+			blocks++
+			for n := 1; n <= R; n++ {
+				f := c.Fork()
+				b := f.Begin(time.Duration(blk.Dt) * time.Second)
+				var txs []TxRes
+				views := []map[string]interface{}{}
+				if !b.Panic {
+					for _, st := range blk.Steps {
+						t := f.Exec(st)
+						txs = append(txs, t)
+						views = append(views, txView16(t))
+					}
+				}
+				var e BlockRes
+				if !b.Panic {
+					e = f.End()
+				}
+				execs++
+				lg.Add(root, "rerun", "Rerun", map[string]interface{}{"h": idx, "n": n}, map[string]interface{}{"begin": b.Panic, "end": e.Panic},
+					map[string]interface{}{"stores": sim.StoreDigests(f.App, f.Ctx), "txs": views, "ntx": len(views), "evs": evView(b, e, txs)})
+			}
+		}
+		if idx > 0 {
+			if br := c.Begin(time.Duration(blk.Dt) * time.Second); br.Panic {
+				return
+			}
+		}
+		for _, st := range blk.Steps {
+			c.Exec(st)
+		}
+		if br := c.EndCommit(); br.Panic {
+			return
+		}
+	}
+	return
+}
+
 // workerMain: `vh pairs worker --workload w.json --out recs.ndjson` - one replica in a fresh OS process.
 func workerMain(args []string) int {
 	fs := flag.NewFlagSet("worker", flag.ExitOnError)
@@ -199,6 +245,7 @@ func replicasMain(args []string) int {
 	nsched := fs.Int("nsched", 2, "number of interleavings to execute")
 	procs := fs.String("procs", "1,4,16", "GOMAXPROCS values of the OS-process replicas")
 	work := fs.String("work", "", "scratch directory")
+	reruns := fs.Int("reruns", 8, "executions of every block with steps from the same state (0 = none)")
 	_ = fs.Parse(args)
 	if *work == "" {
 		*work = filepath.Dir(*out)
@@ -219,6 +266,7 @@ func replicasMain(args []string) int {
 	if *pad > 0 {
 		g.PadTo(*pad)
 	}
+	g.Controls()
 	g.Finish()
 	for k := range genRecs {
 		genRecs[k].WL = blockDigest(g.W.Blocks[k])
@@ -295,6 +343,8 @@ func replicasMain(args []string) int {
 		logReplica(lg, root, fmt.Sprintf("proc%d", p), recs)
 		nproc++
 	}
+	// (iii) N executions of every non-empty block from the same state
+	rerunBlocks, rerunExecs := runReruns(g.W, lg, root, *reruns)
 	if err := lg.Write(*out); err != nil {
 		fmt.Fprintln(os.Stderr, err)
 		return 1
@@ -344,6 +394,7 @@ func replicasMain(args []string) int {
 	cover["auctionsV2"] = int(g.C.App.NewaucKeeper.GetAuctionID(fctx))
 	cover["bidsV2"] = int(g.C.App.NewaucKeeper.GetUserBidID(fctx))
 	cover["height"] = int(g.C.Height)
+	cover["rerunBlocks"], cover["rerunExecs"] = rerunBlocks, rerunExecs
 	for k, v := range g.Cover {
 		cover[k] = v
 	}
